@@ -80,6 +80,9 @@ abbrev Store (Var Val : Type) := List (Var × Dom Val)
 /-- `assignments` -/
 abbrev Asg (Var Val : Type) := List (Var × Val)
 
+/-- `assignments[x]` / `x in assignments` -/
+def getVal (s : Asg Var Val) (x : Var) : Option Val := s.lookup x
+
 /-- the keyword arguments a constraint over `scope` is called with under the assignments `asg` -/
 def known (scope : List Var) (asg : Asg Var Val) : Var → Option Val :=
   fun x => if x ∈ scope then asg.lookup x else none
@@ -225,7 +228,7 @@ def problem (inp : Inputs) (ts : List Dep) : Solver.Problem Tok Bool :=
   { vars := (variables inp ts).map fun v => (v, domainOf inp v), cons := (compiled ts).map MC.toConstraint, lt := ltTok }
 
 /-- a yielded dict, listed along `vars` -/
-def render (vars : List Tok) (s : Solver.Asg Tok Bool) : List (Tok × Bool) := vars.map fun v => (v, (s.lookup v).getD false)
+def render (vars : List Tok) (s : Solver.Asg Tok Bool) : List (Tok × Bool) := vars.map fun v => (v, (Solver.getVal s v).getD false)
 
 /-- `list(find_constraint_satisfaction(restricts, iuse, force_true, force_false, prefer_true))` with the real solver's
 search modelled: the solutions in the order they are yielded -/
